@@ -18,7 +18,7 @@ Theorem C14_clear_check_sound :
   (forall f c c', vcallrel f c c' -> vcall_ok (cl_vd (claims f)) c c') ->
   forall f, check_c14 claims f = true ->
   forall c tm c', (forall r, c r = 0) ->
-  run vconc (vbstep vcallrel) (cfg_of f) 1%positive c tm c' ->
+  run vconc (vbstep vcallrel) vcond (cfg_of f) 1%positive c tm c' ->
   (tm = TRet \/ tm = TTailInd) -> forall r, r < 32 -> c' r = 0.
 Proof. exact clear_check_sound. Qed.
 Print Assumptions C14_clear_check_sound.
@@ -29,7 +29,7 @@ Theorem C14_residue_check_sound :
   (forall f c c', vcallrel f c c' -> vcall_ok (cl_vd (claims f)) c c') ->
   forall f res, check_c14r claims res f = true ->
   forall c tm c', (forall r, c r = 0) ->
-  run vconc (vbstep vcallrel) (cfg_of f) 1%positive c tm c' ->
+  run vconc (vbstep vcallrel) vcond (cfg_of f) 1%positive c tm c' ->
   (tm = TRet \/ tm = TTailInd) -> forall r, r < 32 -> c' r <= nth r res 0.
 Proof. exact residue_check_sound. Qed.
 Print Assumptions C14_residue_check_sound.
@@ -46,7 +46,7 @@ Theorem C14_aes_entry_points : forall f,
   forall (vcallrel : positive -> vconc -> vconc -> Prop),
   (forall g c c', vcallrel g c c' -> vcall_ok (cl_vd (claims g)) c c') ->
   forall c tm c', (forall r, c r = 0) ->
-  run vconc (vbstep vcallrel) (cfg_of f) 1%positive c tm c' ->
+  run vconc (vbstep vcallrel) vcond (cfg_of f) 1%positive c tm c' ->
   (tm = TRet \/ tm = TTailInd) ->
   forall r, r < 32 ->
   c' r <= match lookup_res residue_list (fid f) with Some res => nth r res 0 | None => 0 end.
